@@ -5,6 +5,7 @@
 import TarsModel.Driver.Common
 import TarsModel.Model.Wire
 import TarsModel.Model.SkipIter
+import TarsModel.Model.Tup
 
 namespace Tars.Driver.Wire
 open Tars Tars.Driver
@@ -49,6 +50,39 @@ def read (ty : String) (tag : Nat) (req : Bool) (old : String) (data : Bytes) : 
   | "str" => (fromHex old).map fun o => showRes hexOut (readString o tag req r)
   | _ => none
 
+/-! ### TUP attribute set (`Model/Tup.lean`; harness `harness/tuprun`) -/
+
+/-- bytes of the line protocol inside an entry list: plain hex, the empty string for no bytes -/
+def hexIn (s : String) : Option Bytes := if s.isEmpty then some [] else fromHex s
+def hexPlain (bs : Bytes) : String := if bs.isEmpty then "" else toHex bs
+
+/-- split at a separator character -/
+def splitAt (sep : Char) : List Char → List Char → List String → List String
+  | [], cur, acc => (String.ofList cur.reverse :: acc).reverse
+  | c :: cs, cur, acc =>
+    if c = sep then splitAt sep cs [] (String.ofList cur.reverse :: acc) else splitAt sep cs (c :: cur) acc
+
+/-- `khex=vhex,khex=vhex,…` (`-` = no entry) -/
+def parseEntries (s : String) : Option Tup.TupMap :=
+  if s = "-" then some []
+  else (splitAt ',' s.toList [] []).mapM fun e =>
+    match splitAt '=' e.toList [] [] with
+    | [k, v] => do let k' ← hexIn k; let v' ← hexIn v; pure (k', v')
+    | _ => none
+
+/-- entries sorted by key (hex order = byte order) -/
+def showEntries (m : Tup.TupMap) : String :=
+  if m.isEmpty then "-"
+  else
+    let es := (m.map fun p => (hexPlain p.1, hexPlain p.2)).mergeSort (fun a b => decide (a.1 ≤ b.1))
+    ",".intercalate (es.map fun p => p.1 ++ "=" ++ p.2)
+
+/-- canonical result of `UniAttribute.Decode`: outcome, `u.data` afterwards, reader position,
+    ghost counters -/
+def showTup (o : Tup.Out) : String :=
+  let oc := match o.err with | none => "ok" | some e => "err:" ++ errName e
+  s!"{oc} {showEntries o.data} pos={o.rd.pos} iters={o.iters} alloc={o.alloc}"
+
 def handle (ws : List String) : String :=
   match ws with
   | ["w", ty, tag, v] =>
@@ -76,6 +110,22 @@ def handle (ws : List String) : String :=
     match fromHex hex with
     | some data => let r := Reader.mk0 data; toString (maxStackFields r.iterFuel Consts.tyStructBegin [] r)
     | none => "bad-op"
+  | ["tupenc", ents] =>
+    -- UniAttribute.Encode, the `range` visiting the entries in the given order
+    match parseEntries ents with
+    | some l => hexOut (Tup.encode l)
+    | none => "bad-op"
+  | ["tupdec", hex] =>
+    -- UniAttribute.Decode of the current tree into a fresh attribute set
+    match fromHex hex with
+    | some data => showTup (Tup.decode [] (Reader.mk0 data))
+    | none => "bad-op"
+  | ["tupdecv", v, hex] =>
+    -- … of a given variant (1 = count validated, 0 = as found)
+    match parseBool? v, fromHex hex with
+    | some c, some data => showTup (Tup.decodeV c [] (Reader.mk0 data))
+    | _, _ => "bad-op"
+  | ["tupvariant"] => if Tup.countChecked then "checked" else "asfound"
   | ["widen", bits] =>
     match parseNat? bits with
     | some b => toString (widenF32 b)
